@@ -586,6 +586,7 @@ class World:
         from allmydata.storage.common import si_b2a
         self.rng = rng
         self.swissnum = rbytes(rng, rng.choice([1, 2, 3, 8, 16, 20, 32]))
+        self.first_swissnum = self.swissnum      # `swissnum` moves on when the shares change hands (migrate_step)
         self.other_swissnum = rbytes(rng, len(self.swissnum))
         self.imm_si = [si_b2a(rbytes(rng, 16)).decode() for _ in range(2)]
         self.mut_si = [si_b2a(rbytes(rng, 16)).decode() for _ in range(2)]
@@ -885,6 +886,16 @@ def gen_history(rng, length):
     if rng.random() < 0.5:
         k = rng.randrange(len(tail) + 1)
         tail = tail[:k] + enabler_attack(rng, w, rng.choice(w.mut_si), rng.randrange(2, 5)) + tail[k:]
+    if length > 0 and rng.random() < 0.3:
+        # the shares change hands: copied to another server, or the node's identity regenerated in place
+        mig = [migrate_step(w, rng, rng.random() < 0.6)]
+        for si in w.mut_si:
+            idx = (w.imm_si + w.mut_si).index(si)
+            mig += enabler_attack(rng, w, si, rng.randrange(1, 4))
+            if rng.random() < 0.5:
+                mig += enabler_battery(rng, w, si, w.enabler[idx % 2])[rng.randrange(0, 6):]
+        mig += [gen_request(rng, w, None) for _ in range(rng.randrange(3, 10))]
+        return w, reqs + tail + mig
     if rng.random() < 0.5:
         # more cross-secret traffic later in the history, when the random requests have moved things around
         k = rng.randrange(len(tail) + 1)
@@ -1266,6 +1277,13 @@ def run_history(ctx, hist_id, w_swissnum, reqs, monitor_world=None):
                     if not any(v == we_b for (_, v) in pres) and after_m.get(k) != (we, data):
                         ctx.violation("a mutable share changed without its write enabler", sub,
                                       "write-enabler-bypass-%s" % req["sec"])
+                # ... and the slot's own write enabler keeps working (a well-formed request presenting it is not a 401)
+                if req["pm"] == "ok" and req["body"][0] == "q" and req["sw"] == "ok" and req["sec"] in ("ok", "own-enabler") \
+                        and code == 401:
+                    mine = {bytes.fromhex(v[0]) if v[0] != "-" else b"" for k, v in enablers.items() if k.split("/")[0] == req["si"]}
+                    if mine and all(any(v == e for (_, v) in pres) for e in mine):
+                        ctx.violation("read-test-write presenting the slot's write enabler was answered 401", sub,
+                                      "own-enabler-refused")
                 # the statement: "mutable writes require the write enabler" — a slot that already holds shares
                 if req["pm"] == "ok" and req["body"][0] == "q":
                     slot = {int(k.split("/")[1]): bytes.fromhex(v[0]) if v[0] != "-" else b"" for k, v in enablers.items()
@@ -1298,7 +1316,7 @@ def run_history(ctx, hist_id, w_swissnum, reqs, monitor_world=None):
         final = after_abs
     finally:
         stack.close()
-    return " ".join(outs) + " || " + final, "hist %s %s" % (hx(w_swissnum), " ".join(toks))
+    return " ".join(outs) + " || " + final, "hist %s %s" % (hx(bytes.fromhex(case["swissnum"])), " ".join(toks))
 
 
 def mask_head(reqs, line):
@@ -1306,9 +1324,10 @@ def mask_head(reqs, line):
     parts = line.split(" || ")
     items = parts[0].split(" ")
     for i, r in enumerate(reqs):
-        if r["method"] == "HEAD" and i < len(items):
-            f = items[i].split(":")
-            items[i] = "%s:-:%s" % (f[0], f[-1])
+        j = i + 1                                   # item 0 is the `@node` control token
+        if r["method"] == "HEAD" and j < len(items):
+            f = items[j].split(":")
+            items[j] = "%s:-:%s" % (f[0], f[-1])
     return " ".join(items) + " || " + parts[1]
 
 
@@ -1486,6 +1505,44 @@ CORPUS_SECRETS = [
 ]
 
 
+def migrate_step(w, rng, copy):
+    """control entry: from here on the share directory is served by a node with another nodeid and swissnum (a copy of
+    the directory on another server, or the same directory after the node's identity was regenerated)"""
+    w.swissnum, w.other_swissnum = rbytes(rng, len(w.swissnum)), w.swissnum      # the old swissnum is now a wrong one
+    return {"route": "@migrate", "swissnum": w.swissnum.hex(), "nodeid": rbytes(rng, 20).hex(), "copy": copy, "method": "CTL",
+            "path": "-", "auth": [], "xauth": [], "body": ["n"], "sw": "ctl", "sec": "ctl", "pm": "ctl", "si": "", "n": 0}
+
+
+def enabler_battery(rng, w, si, right):
+    """read-test-write requests against a slot, every one well formed but for its write enabler, then the owner's"""
+    def flip(b):
+        return bytes([b[0] ^ 1]) + b[1:]
+    variants = [("other", w.enabler[0] if right != w.enabler[0] else w.enabler[1]), ("random", rbytes(rng, 32)),
+                ("one-bit-off", flip(right)), ("truncated", right[:31]), ("extended", right + b"\x00"),
+                ("zeros", b"\x00" * 32)]
+    reqs = []
+    for name, we in variants:
+        tw = rng.choice([[[0, [], [[0, rbytes(rng, 4).hex()]], None]], [[1, [], [], 0]], [[2, [], [[0, "58"]], None]],
+                         [[0, [], [[1, "59"]], None], [3, [], [[0, "5a"]], None]]])
+        reqs.append(_rtw_req(rng, w, si, we, tw, [[0, 8]], "wrong-enabler"))
+    q = _rtw_req(rng, w, si, right, [[0, [], [[0, "5151"]], None]], [[0, 8]], "ok")
+    q["xauth"] = [x for x in q["xauth"] if not bytes.fromhex(x).startswith(b"write-enabler")]       # enabler missing
+    q["sec"] = "drop"
+    reqs.append(q)
+    # without the (new) swissnum: the old server's swissnum, and none at all
+    for auth, tag in (([auth_value(w.other_swissnum).hex()], "wrong"), ([], "missing")):
+        q = _rtw_req(rng, w, si, right, [[0, [], [[0, "5252"]], None]], [[0, 8]], "ok")
+        q["auth"], q["sw"] = auth, tag
+        reqs.append(q)
+        q = legit_request(rng, w, "readMut", si, 0, ["n"])
+        q["auth"], q["sw"] = auth, tag
+        reqs.append(q)
+    # the owner: the true enabler still works, and reads see what the owner wrote
+    own = _rtw_req(rng, w, si, right, [[0, [], [[0, "4f4b"]], None]], [[0, 8]], "own-enabler")
+    reqs += [own, legit_request(rng, w, "readMut", si, 0, ["n"]), legit_request(rng, w, "listMut", si, 0, ["n"])]
+    return reqs
+
+
 def _rtw_req(rng, w, si, enabler, tw, rv, tag):
     idx = (w.imm_si + w.mut_si).index(si)
     values = {"r": w.lease[idx % 3], "c": w.lease[(idx + 1) % 3], "w": enabler}
@@ -1534,6 +1591,19 @@ def corpus_histories():
             legit_request(rng, w, "readImm", si, 0, ["n"]),
             legit_request(rng, w, "abort", si, 2, ["n"], upload=intruder)]
     res.append(("allocate-over-upload", w.swissnum, reqs))
+    # --- C30-e: shares served by a node other than the one that recorded them (directory copied to server B with another
+    #     nodeid and swissnum; then B's identity regenerated in place): the write-enabler check is the same as ever
+    w = World(rng)
+    m = w.mut_si[0]
+    right = w.enabler[(w.imm_si + w.mut_si).index(m) % 2]
+    reqs = [_rtw_req(rng, w, m, right, [[0, [], [[0, "6f776e6572277320646174612030"]], None],
+                                        [1, [], [[0, "6f776e6572277320646174612031"]], None]], [], "ok")]
+    first_swissnum = w.swissnum
+    reqs.append(migrate_step(w, rng, True))
+    reqs += enabler_battery(rng, w, m, right)
+    reqs.append(migrate_step(w, rng, False))
+    reqs += enabler_battery(rng, w, m, right)[:3] + enabler_battery(rng, w, m, right)[-3:]
+    res.append(("migrated-shares", first_swissnum, reqs))
     # --- C30-b: a wrong write enabler on a slot that holds shares: new-only, mixed, existing, read-only
     w = World(rng)
     m = w.mut_si[0]
@@ -1602,15 +1672,15 @@ def run(ctx):
     function_level(ctx)
     # histories through the real resource tree
     cases, impls, lines = [], [], []
-    nh = ctx.budget(150, 3000)
+    nh = ctx.budget(140, 3000)
     nc = ctx.budget(45, 900)
     for i in range(nh + nc):
         if i < nc:
             w, reqs = gen_conn_history(ctx.rng)
         else:
             w, reqs = gen_history(ctx.rng, ctx.rng.choice([12, 25, 40]))
-        impl, line = run_history(ctx, i, w.swissnum, reqs)
-        cases.append({"kind": "hist", "swissnum": w.swissnum.hex(), "reqs": reqs})
+        impl, line = run_history(ctx, i, w.first_swissnum, reqs)
+        cases.append({"kind": "hist", "swissnum": w.first_swissnum.hex(), "reqs": reqs})
         impls.append(mask_head(reqs, impl))
         lines.append(line)
     model = ctx.model(lines)
